@@ -74,7 +74,9 @@ PatchesC19 == {
   Single("z", I("9")), Single("a", I("2")), Single("$repeat", I("3")),
   Single("t", Single("y", I("2"))), Single("k", Single("v", I("2"))),
   Mk2("$match", Null, "q", S("$\"{q2}\"")) , Mk2("$match", EmptyMap, "q2", I("1")),
-  Single("n", S("$required"))
+  Single("n", S("$required")),
+  (* changes only the document other documents refer to *)
+  Mk2("$match", Single("a", I("1")), "t", Single("x", I("5")))
 }
 CallsC19 == {MergeCall(p, "base") : p \in PatchesC19}
             \cup {[op |-> "docs"], [op |-> "out"], [op |-> "outbytes"]}
